@@ -63,12 +63,7 @@ func buildCNF(t *world.TaskSpec, out *Outcome) (pb *solver.Problem, wantN int, o
 	case "dimacs":
 		rd := NewSimReader(t.Text, t.Chunks, t.EOFWith)
 		pb, err := solver.ParseCNF(rd)
-		if rd.Zeros > 0 {
-			out.probe("reader-empty-read")
-		}
-		if len(t.Chunks) > 0 {
-			out.probe("reader-chunked")
-		}
+		out.readerFaults(rd)
 		if err != nil {
 			out.fail("C01", "dimacs-parse-error", "well-formed DIMACS text rejected: %v; text=%q chunks=%v", err, t.Text, t.Chunks)
 			return nil, 0, false
@@ -106,6 +101,7 @@ func execCNF(env Env, t *world.TaskSpec, out *Outcome) {
 		s.Certified = true
 		s.CertChan = make(chan string, t.Cap)
 		done = make(chan struct{})
+		out.chanFault(t.Cap, t.Delays, false)
 		Consume(env, "cert-consumer", s.CertChan, t.Delays, &lines, done)
 	}
 	status := s.Solve()
